@@ -18,6 +18,9 @@ BASE_FEAT = dict(
     bodies={"leaf": 4, "next": 3, "rec": 1.5, "fnext": 0.5, "next2": 0.3,
             "next_other": 0.4, "rec_next": 0.4, "next_try": 0.5},
     p_kw=0.2,
+    p_kw2=0.35,      # given keyword-only parameters: probability of a second one
+    p_kw_meth=0.7,   # probability that a method of such a world declares each of them
+    p_kwheavy=0.0,   # worlds where every method declares two keyword-only parameters (in either order) and every call passes both
     p_optional=0.2,
     p_prio=0.3,
     p_abc=0.15,
@@ -142,6 +145,9 @@ def gen_world(rng, f):
     names = [c[0] for c in classes]
     drop = f["swarm_drop"]
     kinds = {k: w for k, w in f["ann"].items() if k in ("c",) or rng.random() >= drop}
+    kwheavy = rng.random() < f["p_kwheavy"]
+    if kwheavy:
+        kinds["d"] = f["ann"].get("d", 1.0)
     bodies = {k: w for k, w in f["bodies"].items() if k in ("leaf",) or rng.random() >= drop}
     hooks = []
     if "h" in kinds:
@@ -179,7 +185,18 @@ def gen_world(rng, f):
     mixed = rng.random() < f["p_mixed_names"]
     has_kw = rng.random() < f["p_kw"]
     kw_flavour = "type" if rng.random() < 0.15 else "cls"
-    has_kw2 = has_kw and rng.random() < 0.35
+    has_kw2 = has_kw and rng.random() < f["p_kw2"]
+    p_kw_meth = f["p_kw_meth"]
+    kw_names = names
+    if kwheavy:
+        has_kw = has_kw2 = True
+        kw_flavour = "cls"
+        p_kw_meth = 1.0
+        # keyword annotations come from one inheritance chain, so that methods often dominate each
+        # other through their keyword types alone
+        leaf = max(names, key=lambda nm: (len(anc[nm]), nm))
+        kw_names = sorted(anc[leaf] | {leaf})
+        plain_pos = rng.random() < 0.6
     use_prio = rng.random() < f["p_prio"]
 
     def pos_ann(p):
@@ -213,19 +230,23 @@ def gen_world(rng, f):
         params = []
         for p in range(ar):
             nm = f"a{p}" if not (mixed and rng.random() < 0.5) else f"b{p}"
-            params.append([nm, "pos", pos_ann(p), False])
+            params.append([nm, "pos", ["o"] if (kwheavy and plain_pos) else pos_ann(p), False])
         if ar >= 2 and rng.random() < f["p_optional"]:
             params[-1][3] = True
-        if has_kw and rng.random() < 0.7:
+        if has_kw and rng.random() < p_kw_meth:
             if kw_flavour == "type":
                 kann = ["t", rng.choice(names + ["object"])] if rng.random() < 0.75 else ["o"]
             else:
-                kann = ["c", rng.choice(names)] if rng.random() < 0.7 else ["o"]
+                kann = ["c", rng.choice(kw_names)] if rng.random() < 0.7 else ["o"]
+                if dep_names and rng.random() < 0.3:
+                    kann = ["d", rng.choice(kw_names), rng.choice(dep_names)]
             params.append(["k0", "kw", kann, rng.random() < 0.4])
-        if has_kw2 and rng.random() < 0.7:
+        if has_kw2 and rng.random() < p_kw_meth:
             # a second keyword-only parameter, declared before or after k0 depending on the method
-            k1 = ["k1", "kw", ["c", rng.choice(names)] if rng.random() < 0.7 else ["o"],
+            k1 = ["k1", "kw", ["c", rng.choice(kw_names)] if rng.random() < 0.7 else ["o"],
                   rng.random() < 0.4]
+            if dep_names and kw_flavour != "type" and rng.random() < (0.5 if kwheavy else 0.3):
+                k1[2] = ["d", rng.choice(kw_names), rng.choice(dep_names)]
             if params and params[-1][1] == "kw" and rng.random() < 0.5:
                 params.insert(len(params) - 1, k1)
             else:
@@ -268,6 +289,7 @@ def gen_world(rng, f):
         "methods": methods,
         "meta": {"min_ar": min_ar, "max_ar": max_ar, "flavour": flavour,
                  "has_kw": has_kw, "has_kw2": has_kw2, "mixed": mixed, "kw_flavour": kw_flavour,
+                 "kwheavy": kwheavy, "kw_names": kw_names if kwheavy else None,
                  "self": (rng.choice(["func", "ovld"]) if rng.random() < f["p_self"] else None)},
     }
     return spec
@@ -306,11 +328,16 @@ def gen_call(rng, spec, odd_shapes=True):
         # same positional names)
         c["kw"] = {f"a{n - 1}": args[-1]}
         c["args"] = args[:-1]
-    if meta["has_kw"] and rng.random() < 0.6:
+    heavy = meta.get("kwheavy") and rng.random() < 0.9
+    if meta["has_kw"] and (rng.random() < 0.6 or heavy):
         c.setdefault("kw", {})["k0"] = gen_value(rng, spec, meta.get("kw_flavour", "cls"))
-    if meta.get("has_kw2") and rng.random() < 0.6:
+        if heavy and rng.random() < 0.7:
+            c["kw"]["k0"] = ["n", rng.choice(meta["kw_names"]), rng.randrange(4), []]
+    if meta.get("has_kw2") and (rng.random() < 0.6 or heavy):
         kw = c.setdefault("kw", {})
         kw["k1"] = gen_value(rng, spec, "cls")
+        if heavy and rng.random() < 0.7:
+            kw["k1"] = ["n", rng.choice(meta["kw_names"]), rng.randrange(4), []]
         if rng.random() < 0.5:  # keyword order at the call site varies too
             c["kw"] = dict(reversed(list(kw.items())))
     return c
